@@ -27,30 +27,33 @@ Abstractions (recorded as assumptions of C05):
 Core Lean only: linked into the native driver `m_partialsig`.
 -/
 import Ssv.Gen.Partialsig
+import Ssv.Gen.Kernels
 
 namespace Ssv.PartialSig
 
-/-! ### quorum kernel (protocol/v2/types/ssvshare.go `ComputeQuorumAndPartialQuorum`, tied by fingerprint and by the differential run) -/
+/-! ### quorum kernel: TRANSLATED from protocol/v2/types/ssvshare.go `ComputeQuorumAndPartialQuorum` on every run -/
 
-/-- `f := (committeeSize - 1) / 3` (Go `int` division; committee sizes are positive) -/
+/-- `Share.Quorum` for a committee of `n` operators -/
+def quorumOf (n : Nat) : Nat := (Gen.k_ComputeQuorumAndPartialQuorum (n : Int)).1.toNat
+/-- `Share.PartialQuorum` -/
+def partialQuorumOf (n : Nat) : Nat := (Gen.k_ComputeQuorumAndPartialQuorum (n : Int)).2.toNat
+/-- the number of faulty members the committee tolerates, `f = (n - 1) / 3` -/
 def faultyOf (n : Nat) : Nat := (n - 1) / 3
-/-- `quorum = f*2 + 1` -/
-def quorumOf (n : Nat) : Nat := faultyOf n * 2 + 1
-/-- `partialQuorum = f + 1` -/
-def partialQuorumOf (n : Nat) : Nat := faultyOf n + 1
 
 /-! ### container (ssv-spec `PartialSigContainer`) -/
 
-/-- `Signatures[root][signer]`; `some g`: a 96-byte share is stored, `g` = it verifies under the signer's share key -/
-abbrev Container := Nat → Nat → Option Bool
+/-- `Signatures[root][signer]`; `some g`: a 96-byte share is stored, `g` = it verifies under the signer's share key.
+    (A structure around the lookup function so that compiled updates are evaluated once, not per lookup.) -/
+structure Container where
+  get : Nat → Nat → Option Bool
 
-def Container.empty : Container := fun _ _ => none
+def Container.empty : Container := ⟨fun _ _ => none⟩
 
 def setSig (c : Container) (r s : Nat) (v : Option Bool) : Container :=
-  fun r' s' => if r' = r ∧ s' = s then v else c r' s'
+  ⟨fun r' s' => if r' = r ∧ s' = s then v else c.get r' s'⟩
 
 /-- keys of `Signatures[root]` (committee members only ever get in) -/
-def signersOf (cm : List Nat) (c : Container) (r : Nat) : List Nat := cm.filter fun s => (c r s).isSome
+def signersOf (cm : List Nat) (c : Container) (r : Nat) : List Nat := cm.filter fun s => (c.get r s).isSome
 
 /-- `len(ps.Signatures[rootHex(root)])` -/
 def count (cm : List Nat) (c : Container) (r : Nat) : Nat := (signersOf cm c r).length
@@ -60,20 +63,20 @@ def hasQuorum (q : Nat) (cm : List Nat) (c : Container) (r : Nat) : Bool := deci
 
 /-- `AddSignature`: stores only `if m[sigMsg.Signer] == nil` -/
 def addSignature (c : Container) (r s : Nat) (g : Bool) : Container :=
-  match c r s with
+  match c.get r s with
   | none => setSig c r s (some g)
   | some _ => c
 
 /-- `resolveDuplicateSignature`: keep a correct previous share; otherwise remove it and hold the new one iff it verifies -/
 def resolveDuplicate (c : Container) (r s : Nat) (g : Bool) : Container :=
-  match c r s with
+  match c.get r s with
   | some true => c
   | _ => if g then setSig c r s (some true) else setSig c r s none
 
 /-- one iteration of the loop of `basePartialSigMsgProcessing`; the Boolean is `hasQuorum && !prevQuorum` -/
 def processOne (q : Nat) (cm : List Nat) (c : Container) (s : Nat) (r : Nat) (g : Bool) : Container × Bool :=
   let prev := hasQuorum q cm c r
-  let c' := if (c r s).isSome then resolveDuplicate c r s g else addSignature c r s g
+  let c' := if (c.get r s).isSome then resolveDuplicate c r s g else addSignature c r s g
   (c', hasQuorum q cm c' r && !prev)
 
 /-- `basePartialSigMsgProcessing`: returns the container and the roots that reached quorum for the first time, in message order -/
@@ -84,7 +87,7 @@ def processEntries (q : Nat) (cm : List Nat) (s : Nat) : Container → List (Nat
     processEntries q cm s c' rest (if edge then acc ++ [r] else acc)
 
 /-- every stored share of the root is good -/
-def allGood (cm : List Nat) (c : Container) (r : Nat) : Bool := (signersOf cm c r).all fun s => c r s == some true
+def allGood (cm : List Nat) (c : Container) (r : Nat) : Bool := (signersOf cm c r).all fun s => c.get r s == some true
 
 /-- `ReconstructSignature` + `VerifyReconstructedSignature` succeed (threshold-BLS assumption) -/
 def reconstructOK (q : Nat) (cm : List Nat) (c : Container) (r : Nat) : Bool :=
@@ -92,10 +95,10 @@ def reconstructOK (q : Nat) (cm : List Nat) (c : Container) (r : Nat) : Bool :=
 
 /-- `FallBackAndVerifyEachSignature`: remove every share of the root that does not verify -/
 def fallback (c : Container) (r : Nat) : Container :=
-  fun r' s' =>
-    match c r' s' with
+  ⟨fun r' s' =>
+    match c.get r' s' with
     | some false => if r' = r then none else some false
-    | v => v
+    | v => v⟩
 
 /-! ### runner -/
 
@@ -164,7 +167,7 @@ def validate (st : St) (m : Msg) : Option Reject :=
   else validateForm st.cm st.expected m
 
 def sharesOf (cm : List Nat) (c : Container) (r : Nat) : List (Nat × Option Bool) :=
-  (signersOf cm c r).map fun s => (s, c r s)
+  (signersOf cm c r).map fun s => (s, c.get r s)
 
 /-- the `for _, root := range roots` loop: returns container, submissions so far, and whether it ran to the end -/
 def handleRoots (q : Nat) (cm : List Nat) (allRoots : List Nat) (submitIf : Nat → Bool) :
